@@ -1,4 +1,5 @@
 import Pymeeus.Refine.Calendar
+import Pymeeus.Refine.Instant
 /-
 C01 — Calendar date <-> Julian Day is an exact bijection on civil days.
 
@@ -102,7 +103,92 @@ theorem month_names (s : String) (i : Nat) (hi : i < 12)
   unfold get_month_str
   rcases h with h | h <;> rw [h] <;> interval_cases i <;> decide
 
+/-- "building an Epoch … and reading the date back returns exactly that date" at ANY time of day: date + day fraction
+    `0 ≤ f < 1` reads back as the same date and the same fraction (the century step of `get_date` is taken on the
+    integer day number, not on the instant). -/
+theorem roundtrip_instant (y m d : Int) (f : ℚ) (h : Valid y m d) (hf0 : 0 ≤ f) (hf1 : f < 1) :
+    get_date (compute_jde y m ((d : ℚ) + f)) = .ok (y, m, (d : ℚ) + f) := by
+  rw [compute_jde_frac y m d f hf0 hf1 h]
+  exact get_date_valid y m d f h hf0 hf1
+
+/-- The calendar switch-over at its boundary values: 4 October 1582 (Julian) is JD 2299159.5, the next day 15 October
+    (Gregorian) is JD 2299160.5 exactly, and that very instant reads back as 15 October, the instant before as 4 October. -/
+theorem reform_boundary :
+    compute_jde 1582 10 4 = 2299159.5 ∧ compute_jde 1582 10 15 = 2299160.5 ∧
+    get_date 2299160.5 = .ok (1582, 10, 15) ∧ get_date 2299160.25 = .ok (1582, 10, 4.75) ∧
+    compute_jde 1582 10 4.75 = 2299160.25 := by
+  decide +kernel
+
+/-- "a year before −4712 is refused with ValueError", whatever month and day -/
+theorem refuses_year_below_range (y m : Int) (d : ℚ) (hy : y < -4712) : epoch_ymd y m d = .error .valueError := by
+  unfold epoch_ymd check_values
+  simp [hy]
+
+/-- a month number outside 1..12 is refused with ValueError, whatever year and day -/
+theorem refuses_month_out_of_range (y m : Int) (d : ℚ) (hm : m < 1 ∨ 12 < m) : epoch_ymd y m d = .error .valueError := by
+  have hg : get_month_int m = .error .valueError := by
+    unfold get_month_int
+    have : ¬ (m ≥ 1 ∧ m ≤ 12) := by omega
+    simp [this]
+  unfold epoch_ymd check_values
+  rw [hg]
+  split_ifs <;> rfl
+
+/-- validation accepts EXACTLY the triples (year ≥ −4712, month 1..12, 1 ≤ day ≤ length of the month under the leap rule
+    in force) — for every integer triple -/
+theorem constructor_accepts_iff (y m d : Int) :
+    (∃ j, epoch_ymd y m (ofInt d) = .ok j) ↔ (-4712 ≤ y ∧ 1 ≤ m ∧ m ≤ 12 ∧ 1 ≤ d ∧ d ≤ monthLen y m) := by
+  constructor
+  · rintro ⟨j, hj⟩
+    by_contra hn
+    have : epoch_ymd y m (ofInt d) = .error .valueError := by
+      by_cases hy : y < -4712
+      · exact refuses_year_below_range y m _ hy
+      by_cases hm : m < 1 ∨ 12 < m
+      · exact refuses_month_out_of_range y m _ hm
+      by_cases hd : d < 1
+      · exact refuses_day_below_one y m d hd
+      · exact refuses_day_past_month_end y m d (by omega) (by omega) (by omega)
+    rw [this] at hj; cases hj
+  · rintro ⟨hy, hm1, hm12, hd1, hd⟩
+    have hd31 : d ≤ 31 := by unfold monthLen at hd; split_ifs at hd <;> omega
+    have c1 : ¬ y < -4712 := by omega
+    have hq1 : ¬ ((d : ℚ) < 1) := by push_cast [not_lt]; exact_mod_cast hd1
+    have hq32 : ¬ ((32 : ℚ) ≤ (d : ℚ)) := by rw [not_le]; exact_mod_cast (by omega : d < 32)
+    have hlim : ¬ (((month_limit y m + 1 : Int) : ℚ) ≤ (d : ℚ)) := by
+      rw [not_le, month_limit_eq y m hm1 hm12]; exact_mod_cast (by omega : d < monthLen y m + 1)
+    push_cast at hlim
+    have hc : check_values y (get_month_int m) (ofInt d) 0.0 0.0 0.0 = .ok (y, m, ofInt d, 0.0, 0.0, 0.0) := by
+      unfold check_values get_month_int
+      norm_num [c1, hm1, hm12, plt, ple, ofInt, hq1, hq32, hlim]
+    unfold epoch_ymd
+    rw [hc]
+    exact ⟨_, rfl⟩
+
+/-- the month given by name is validated exactly like the month given by number: the February extension of a leap year
+    (and every other length test) is decided on the RESOLVED month -/
+theorem month_name_same_as_number (s : String) (i : Nat) (hi : i < 12)
+    (h : py_strip_capitalize s = months_mmm[i]! ∨ py_strip_capitalize s = months_full[i]!)
+    (y : Int) (d hh mi sec : ℚ) :
+    check_values y (get_month_str s) d hh mi sec = check_values y (get_month_int ((i : Int) + 1)) d hh mi sec := by
+  rw [month_names s i hi h]
+  have : get_month_int ((i : Int) + 1) = .ok ((i : Int) + 1) := by
+    unfold get_month_int
+    have : ((i : Int) + 1 ≥ 1 ∧ (i : Int) + 1 ≤ 12) := by omega
+    simp [this]
+  rw [this]
+
+/-- 29 February of a leap year is accepted when the month is written by name, 29 February 1900 is not -/
+theorem feb29_by_name :
+    (check_values 2000 (get_month_str " feb ") 29 0 0 0).isOk = true ∧
+    (check_values 1500 (get_month_str "February") 29 0 0 0).isOk = true ∧
+    (check_values 1900 (get_month_str "FEB") 29 0 0 0).isOk = false ∧
+    (check_values 2000 (get_month_str "FEB") 30 0 0 0).isOk = false := by
+  decide +kernel
+
 -- Non-vacuity: the hypotheses are met by concrete, non-trivial inputs.
+example : py_strip_capitalize " feb " = months_mmm[1]! := by decide
+example : (0 : ℚ) ≤ 3 / 4 ∧ (3 / 4 : ℚ) < 1 ∧ Valid 1582 10 4 := by refine ⟨by norm_num, by norm_num, by decide⟩
 example : Valid 1582 10 4 ∧ next 1582 10 4 = (1582, 10, 15) := by decide
 example : Valid 2000 2 29 ∧ ¬ Valid 1900 2 29 ∧ Valid 1500 2 29 ∧ Valid (-4712) 2 29 := by decide
 example : py_strip_capitalize "  aUGust " = months_full[7]! := by decide
